@@ -188,3 +188,39 @@ Proof.
   - apply in_map_iff in Hx. destruct Hx as [n [En Hin]]. subst. apply Hn. exact Hin.
   - apply in_map_iff in Hy. destruct Hy as [n [En Hin]]. subst. apply Hn. exact Hin.
 Qed.
+
+(* when the validity test itself rejects every name that starts with the generated prefix (the
+   source's `not str.startswith(self.internal_prefix)`), no hypothesis on the user's names is
+   needed: the sanitizer never hands one identifier to two names *)
+Theorem sanitize_injective_rejecting : forall (valid : name -> bool) (prefix : name) pres,
+  (forall s, valid s = true -> has_prefix prefix s = false) ->
+  NoDup pres ->
+  forall a b, In a pres -> In b pres ->
+  varname (sanitize_all valid prefix pres) a = varname (sanitize_all valid prefix pres) b -> a = b.
+Proof.
+  intros valid prefix pres Rej ND a b Ha Hb E. unfold sanitize_all in E.
+  destruct (valid a) eqn:Va; destruct (valid b) eqn:Vb.
+  - rewrite !varname_valid in E by assumption. exact E.
+  - rewrite varname_valid in E by assumption.
+    destruct (varname_invalid_range valid prefix pres 0%N b Hb Vb) as [i [_ Hv]]. rewrite Hv in E.
+    pose proof (Rej a Va) as R. rewrite E, has_prefix_app in R. discriminate.
+  - rewrite (varname_valid valid prefix pres 0%N b Vb) in E.
+    destruct (varname_invalid_range valid prefix pres 0%N a Ha Va) as [i [_ Hv]]. rewrite Hv in E.
+    pose proof (Rej b Vb) as R. rewrite <- E, has_prefix_app in R. discriminate.
+  - eapply sanitize_inj_invalid; eauto.
+Qed.
+
+Corollary sanitized_names_NoDup : forall (valid : name -> bool) (prefix : name)
+  (present : list name -> list name) names,
+  (forall s, valid s = true -> has_prefix prefix s = false) ->
+  (forall l, Permutation (present l) l) ->
+  NoDup names ->
+  NoDup (map (varname (sanitize_all valid prefix (present names))) names).
+Proof.
+  intros valid prefix present names Rej PP ND.
+  apply NoDup_map_inj; auto. intros x y Hx Hy E.
+  eapply (sanitize_injective_rejecting valid prefix (present names)); eauto.
+  - eapply Permutation_NoDup. apply Permutation_sym. apply PP. exact ND.
+  - eapply Permutation_in. apply Permutation_sym. apply PP. exact Hx.
+  - eapply Permutation_in. apply Permutation_sym. apply PP. exact Hy.
+Qed.
